@@ -64,20 +64,15 @@ theorem firstReal_suffix : ∀ (ts : List Tok) (t : Tok) (rest : List Tok),
       subst h2
       exact ⟨List.suffix_cons x xs, by simp⟩
 
-theorem takeUntilGo_suffix (ks : List Kind) : ∀ (ts : List Tok) (n : Nat), (takeUntilGo ks ts n).1 <:+ ts := by
+theorem takeUntil_suffix (ks : List Kind) : ∀ ts : List Tok, (takeUntil ks ts).1 <:+ ts := by
   intro ts
   induction ts with
-  | nil => intro n; simp [takeUntilGo]
+  | nil => simp [takeUntil]
   | cons t rest ih =>
-    intro n
-    simp only [takeUntilGo]
+    simp only [takeUntil]
     split
     · exact List.suffix_cons t rest
-    · exact List.IsSuffix.trans (ih (n + 1)) (List.suffix_cons t rest)
-
-theorem takeUntil_suffix (ks : List Kind) (ts : List Tok) : (takeUntil ks ts).1 <:+ ts := by
-  simp only [takeUntil]
-  exact takeUntilGo_suffix ks ts 0
+    · exact List.IsSuffix.trans ih (List.suffix_cons t rest)
 
 theorem recoverStep_suffix (m : RecMode) (ts e : List Tok) (msg : String) (h : e <:+ ts) :
     (recoverStep m ts e msg).1 <:+ ts := by
